@@ -186,6 +186,7 @@ class Exec:
         self.parameter_mode = parameter_mode
         self.world = get_world(desc)
         self.world.rt.reset()
+        self.world.__dict__.pop('_ctx_memo', None)  # caller-owned context objects live for one history
         self.data_dir = scratch.fresh('data')
         self.model = StoreModel(desc, self.world.modname, parameter_mode)
         self.slots = {}
